@@ -87,8 +87,17 @@ def _print_Piecewise(
         else:
             return printer._print(cond)
 
+    def algebraic(cond) -> bool:
+        # sympy "solves" conditions such as sin(x) < 0 for x and returns
+        # (x > pi) & (x < 2*pi), which is not equivalent. Only conditions
+        # without functions (apart from Abs) are left to simplify.
+        return all(isinstance(f, sympy.Abs) for f in cond.atoms(sympy.Function))
+
     try:
-        simplified = sympy.simplify(expr)
+        if all(algebraic(arg.cond) for arg in expr.args):
+            simplified = sympy.simplify(expr)
+        else:
+            simplified = expr
     except Exception:
         # simplify can choke on unevaluated sub-expressions; the original
         # piecewise is equivalent, only less tidy. The printers also need the
